@@ -189,37 +189,58 @@ _STATE_HDR = re.compile(r"^\\\* <(\w+) line")
 
 
 def simulate(tla: Path, cfg: Path, tmp: Path, *, num=100, depth=12, seed=0, **kw):
-    """Return (TlcResult, behaviours); a behaviour is a list of (action name, state dict)."""
-    d = tmp / ("sim_" + tla.stem + "_" + str(time.time_ns()))
-    d.mkdir(parents=True)
-    kw.setdefault("workers", 1)
-    w = kw["workers"]
+    """Return (TlcResult, behaviours); a behaviour is a list of (action name, state dict).
+
+    TLC's multi-worker simulation is not reproducible, so `workers` single-worker TLC processes are run side by side,
+    each with its own seed derived from `seed` (deterministic for a given seed and worker count)."""
+    from concurrent.futures import ThreadPoolExecutor
+    w = max(1, min(int(kw.pop("workers", 1)), num))
     per = max(1, (num + w - 1) // w)
     extra = tuple(kw.pop("args", ()))
-    res = run(tla, cfg, tmp, args=("-simulate", f"file={d}/tr,num={per}", "-depth", str(depth), "-seed", str(seed), *extra), **kw)
+
+    def one(i):
+        d = tmp / f"sim_{tla.stem}_{time.time_ns()}_{i}"
+        d.mkdir(parents=True)
+        res = run(tla, cfg, tmp, workers=1, args=("-simulate", f"file={d}/tr,num={per}", "-depth", str(depth),
+                                                  "-seed", str(seed * 1000 + i), *extra), **kw)
+        behs = []
+        for f in sorted(d.iterdir()):
+            beh, act, buf = [], None, []
+            for line in open(f):
+                m = _STATE_HDR.match(line)
+                if m:
+                    act = m.group(1)
+                    buf = []
+                elif line.startswith("STATE_"):
+                    buf = []
+                elif line.startswith("/\\"):
+                    buf.append(line)
+                elif not line.strip() and buf:
+                    beh.append((act, tlaval.parse_state("".join(buf))))
+                    buf = []
+                elif line.startswith("====") and buf:
+                    beh.append((act, tlaval.parse_state("".join(buf))))
+                    buf = []
+                elif buf:
+                    buf.append(line)
+            behs.append(beh)
+        shutil.rmtree(d, ignore_errors=True)
+        return res, behs
+    with ThreadPoolExecutor(w) as ex:
+        parts = list(ex.map(one, range(w)))
+    total = TlcResult(ok=all(r.ok for r, _ in parts))
     behs = []
-    for f in sorted(d.iterdir()):
-        beh, act, buf = [], None, []
-        for line in open(f):
-            m = _STATE_HDR.match(line)
-            if m:
-                act = m.group(1)
-                buf = []
-            elif line.startswith("STATE_"):
-                buf = []
-            elif line.startswith("/\\"):
-                buf.append(line)
-            elif not line.strip() and buf:
-                beh.append((act, tlaval.parse_state("".join(buf))))
-                buf = []
-            elif line.startswith("====") and buf:
-                beh.append((act, tlaval.parse_state("".join(buf))))
-                buf = []
-            elif buf:
-                buf.append(line)
-        behs.append(beh)
-    shutil.rmtree(d, ignore_errors=True)
-    return res, behs
+    for r, b in parts:
+        total.generated += r.generated
+        total.distinct += r.distinct
+        total.wall_s = max(total.wall_s, r.wall_s)
+        total.violated += [v for v in r.violated if v not in total.violated]
+        if r.violated and not total.output:
+            total.output = r.output
+        behs += b
+    if not total.output:
+        total.output = parts[0][0].output
+    return total, behs
 
 
 def printed_n(out: str, marker: str, n: int):
